@@ -1644,7 +1644,7 @@ func xProgramBody(p *Prog, r *R, prof string) {
 	switch prof {
 	case "C09x":
 		p.scalars = append(append([]*V{}, heapScalars...), vstr("caf\xe9"), vstr("\xff\xfe"), vstr("a\xc0\xafb"))
-	case "C02x", "C16x", "C13x":
+	case "C02x", "C16x", "C13x", "C01x":
 		p.scalars = finiteScalars
 	case "C18x":
 		p.scalars = numericScalars
@@ -1765,6 +1765,14 @@ func xProgramBody(p *Prog, r *R, prof string) {
 			}
 		case "C02x":
 			p.do(&Op{Name: "XString", R: anyReg()})
+		case "C01x":
+			// serialise and parse back: the result is a live container of the program from then on (mutated, serialised and parsed
+			// again like the others); at most a dozen containers so that programs stay small
+			if len(p.m.vars) < 12 && r.chance(0.75) {
+				p.do(&Op{Name: "ParseBack", R: anyReg()})
+			} else {
+				p.do(&Op{Name: "XString", R: anyReg()})
+			}
 		case "C16x":
 			p.do(&Op{Name: "XFormat", R: anyReg(), I: pickOf(r, []int64{-1, 0, 1, 2, 3, 4, 10, 11, int64(r.Intn(11))})})
 		case "C13x":
@@ -1990,11 +1998,11 @@ type xStream struct {
 }
 
 var xStreams = map[string]xStream{
-	"C02": {"C02x", 25, 100}, "C07": {"C07x", 20, 120}, "C09": {"C09x", 8, 150}, "C12": {"C12x", 25, 120}, "C13": {"C13x", 20, 120},
+	"C01": {"C01x", 25, 100}, "C02": {"C02x", 25, 100}, "C07": {"C07x", 20, 120}, "C09": {"C09x", 8, 150}, "C12": {"C12x", 25, 120}, "C13": {"C13x", 20, 120},
 	"C14": {"C14x", 15, 150}, "C15": {"C15x", 4, 100}, "C16": {"C16x", 20, 100}, "C17": {"C17x", 20, 150}, "C18": {"C18x", 25, 120},
 }
 
-var xProfiles = []string{"C02x", "C07x", "C09x", "C12x", "C13x", "C14x", "C15x", "C16x", "C17x", "C18x"}
+var xProfiles = []string{"C01x", "C02x", "C07x", "C09x", "C12x", "C13x", "C14x", "C15x", "C16x", "C17x", "C18x"}
 
 func init() {
 	for _, p := range xProfiles {
